@@ -31,7 +31,7 @@ const NO_TIMEOUT: u64 = 1_000_000;
 const HALF_TICK: Duration = Duration::from_millis(20);
 /// A timed call must start within this much after its scheduled instant.
 const TOLERANCE: Duration = Duration::from_millis(7);
-const QID: QueryId = QueryId(7);
+const QID0: usize = 7;
 
 struct World {
     base: Instant,
@@ -139,6 +139,7 @@ enum Event {
     SendOk(u64),
     SendFail(u64),
     BadResp(u64),
+    PeerAct(u64),
 }
 
 impl Event {
@@ -155,6 +156,7 @@ impl Event {
             Event::SendOk(p) => vec![3, *p],
             Event::SendFail(p) => vec![4, *p],
             Event::BadResp(p) => vec![5, *p],
+            Event::PeerAct(p) => vec![6, *p],
         }
     }
 }
@@ -185,6 +187,7 @@ fn decode(c: &[u64]) -> Option<(Header, Vec<Event>)> {
             3 => Event::SendOk(r.n()?),
             4 => Event::SendFail(r.n()?),
             5 => Event::BadResp(r.n()?),
+            6 => Event::PeerAct(r.n()?),
             _ => return None,
         };
         evs.push(e);
@@ -201,7 +204,10 @@ struct Sys<'w> {
     engine: QueryEngine,
     peers: Vec<PeerId>,
     index: HashMap<PeerId, u64>,
-    kind: u64,
+    kinds: Vec<u64>,
+    qids: Vec<QueryId>,
+    /// index of the query the last `next_action` result belonged to
+    acted: Option<usize>,
     start: Instant,
     timed: bool,
     late: bool,
@@ -209,14 +215,21 @@ struct Sys<'w> {
 
 impl<'w> Sys<'w> {
     fn new(w: &'w World, h: &Header) -> Option<Self> {
-        let n = h.dists.len();
-        if n == 0 || n > POOL || h.kind > 2 || h.flavour > 2 {
+        Self::new_multi(w, std::slice::from_ref(h))
+    }
+
+    /// One engine with one query per header; the headers share k, alpha, timeout, local, dists.
+    fn new_multi(w: &'w World, hs: &[Header]) -> Option<Self> {
+        let h0 = hs.first()?;
+        let n = h0.dists.len();
+        if n == 0 || n > POOL {
             return None;
         }
-        let pool = if h.kind == 0 && h.flavour == 0 { &w.by_peer_target } else { &w.by_key_target };
+        let peer_target = hs.len() == 1 && h0.kind == 0 && h0.flavour == 0;
+        let pool = if peer_target { &w.by_peer_target } else { &w.by_key_target };
         let mut peers = Vec::new();
         let mut index = HashMap::new();
-        for (i, d) in h.dists.iter().enumerate() {
+        for (i, d) in h0.dists.iter().enumerate() {
             let p = *pool.get(*d as usize)?;
             if index.insert(p, i as u64).is_some() {
                 return None;
@@ -224,46 +237,66 @@ impl<'w> Sys<'w> {
             peers.push(p);
         }
         let ok = |p: &u64| (*p as usize) < n;
-        if !ok(&h.local) || !h.seeds.iter().all(ok) || !h.kprov.iter().all(|(p, a)| ok(p) && a.iter().all(|x| (*x as usize) < NADDR)) {
+        if !ok(&h0.local) {
             return None;
         }
-        let mut engine = QueryEngine::new(peers[h.local as usize], h.k as usize, h.alpha as usize);
-        let mut s = Sys { w, engine: QueryEngine::new(peers[0], 0, 0), peers, index, kind: h.kind, start: Instant::now(), timed: h.timeout < NO_TIMEOUT, late: false };
-        let seeds: VecDeque<KademliaPeer> = h.seeds.iter().map(|p| s.kad(*p, &[])).collect();
-        let quorum = match h.qtag {
-            0 => Quorum::All,
-            1 => Quorum::One,
-            _ => Quorum::N(NonZeroUsize::new(h.qn as usize)?),
+        let mut engine = QueryEngine::new(peers[h0.local as usize], h0.k as usize, h0.alpha as usize);
+        let mut s = Sys {
+            w,
+            engine: QueryEngine::new(peers[0], 0, 0),
+            peers,
+            index,
+            kinds: hs.iter().map(|h| h.kind).collect(),
+            qids: (0..hs.len()).map(|i| QueryId(QID0 + i)).collect(),
+            acted: None,
+            start: Instant::now(),
+            timed: h0.timeout < NO_TIMEOUT,
+            late: false,
         };
-        let record = Record { key: w.target_key.clone(), value: vec![9], publisher: None, expires: None };
-        match (h.kind, h.flavour) {
-            (0, 0) => {
-                engine.start_find_node(QID, w.target_peer, seeds);
+        for (qi, h) in hs.iter().enumerate() {
+            if h.kind > 2 || h.flavour > 2 || (hs.len() > 1 && h.kind == 0 && h.flavour == 0) {
+                return None;
             }
-            (0, 1) => {
-                engine.start_put_record(QID, record, seeds, quorum);
+            if !h.seeds.iter().all(ok) || !h.kprov.iter().all(|(p, a)| ok(p) && a.iter().all(|x| (*x as usize) < NADDR)) {
+                return None;
             }
-            (0, _) => {
-                let me = ContentProvider { peer: s.peers[h.local as usize], addresses: vec![] };
-                engine.start_add_provider(QID, w.target_key.clone(), me, seeds, quorum);
+            let qid = s.qids[qi];
+            let seeds: VecDeque<KademliaPeer> = h.seeds.iter().map(|p| s.kad(*p, &[])).collect();
+            let quorum = match h.qtag {
+                0 => Quorum::All,
+                1 => Quorum::One,
+                _ => Quorum::N(NonZeroUsize::new(h.qn as usize)?),
+            };
+            let record = Record { key: w.target_key.clone(), value: vec![9], publisher: None, expires: None };
+            match (h.kind, h.flavour) {
+                (0, 0) => {
+                    engine.start_find_node(qid, w.target_peer, seeds);
+                }
+                (0, 1) => {
+                    engine.start_put_record(qid, record, seeds, quorum);
+                }
+                (0, _) => {
+                    let me = ContentProvider { peer: s.peers[h.local as usize], addresses: vec![] };
+                    engine.start_add_provider(qid, w.target_key.clone(), me, seeds, quorum);
+                }
+                (1, _) => {
+                    engine.start_get_record(qid, w.target_key.clone(), seeds, quorum, h.known != 0);
+                }
+                _ => {
+                    let kp = h
+                        .kprov
+                        .iter()
+                        .map(|(p, a)| ContentProvider {
+                            peer: s.peers[*p as usize],
+                            addresses: a.iter().map(|x| w.addrs[*x as usize].clone()).collect(),
+                        })
+                        .collect();
+                    engine.start_get_providers(qid, w.target_key.clone(), seeds, kp);
+                }
             }
-            (1, _) => {
-                engine.start_get_record(QID, w.target_key.clone(), seeds, quorum, h.known != 0);
+            if s.timed {
+                engine.verif_set_peer_timeout(qid, HALF_TICK * h.timeout as u32 + HALF_TICK / 2);
             }
-            _ => {
-                let kp = h
-                    .kprov
-                    .iter()
-                    .map(|(p, a)| ContentProvider {
-                        peer: s.peers[*p as usize],
-                        addresses: a.iter().map(|x| w.addrs[*x as usize].clone()).collect(),
-                    })
-                    .collect();
-                engine.start_get_providers(QID, w.target_key.clone(), seeds, kp);
-            }
-        }
-        if s.timed {
-            engine.verif_set_peer_timeout(QID, HALF_TICK * h.timeout as u32 + HALF_TICK / 2);
         }
         s.engine = engine;
         s.start = Instant::now();
@@ -291,7 +324,13 @@ impl<'w> Sys<'w> {
     }
 
     fn dump(&self, out: &mut Vec<u64>) {
-        let Some(d) = self.engine.verif_dump(QID) else {
+        for q in &self.qids {
+            self.dump_query(*q, out);
+        }
+    }
+
+    fn dump_query(&self, q: QueryId, out: &mut Vec<u64>) {
+        let Some(d) = self.engine.verif_dump(q) else {
             out.push(0);
             return;
         };
@@ -314,7 +353,22 @@ impl<'w> Sys<'w> {
         put(self.idxs(d.found_providers.iter(), false));
     }
 
-    fn action(&self, a: Option<QueryAction>) -> Vec<u64> {
+    fn action(&mut self, a: Option<QueryAction>) -> Vec<u64> {
+        let qid = match &a {
+            None => None,
+            Some(QueryAction::SendMessage { query, .. })
+            | Some(QueryAction::QueryFailed { query })
+            | Some(QueryAction::QuerySucceeded { query })
+            | Some(QueryAction::FindNodeQuerySucceeded { query, .. })
+            | Some(QueryAction::PutRecordToFoundNodes { query, .. })
+            | Some(QueryAction::AddProviderToFoundNodes { query, .. })
+            | Some(QueryAction::PutRecordQuerySucceeded { query, .. })
+            | Some(QueryAction::AddProviderQuerySucceeded { query, .. }) => Some(*query),
+            Some(QueryAction::GetRecordPartialResult { query_id, .. })
+            | Some(QueryAction::GetRecordQueryDone { query_id })
+            | Some(QueryAction::GetProvidersQueryDone { query_id, .. }) => Some(*query_id),
+        };
+        self.acted = qid.and_then(|q| self.qids.iter().position(|x| *x == q));
         match a {
             None => vec![0],
             Some(QueryAction::SendMessage { peer, .. }) => vec![1, self.idx(&peer)],
@@ -351,7 +405,14 @@ impl<'w> Sys<'w> {
     /// Applies one event to the real engine; returns the encoded action (and appends action and
     /// state dump to `trace`).
     fn apply(&mut self, e: &Event, trace: &mut Vec<u64>) -> Vec<u64> {
+        self.apply_q(0, e, trace)
+    }
+
+    fn apply_q(&mut self, q: usize, e: &Event, trace: &mut Vec<u64>) -> Vec<u64> {
         let n = self.peers.len() as u64;
+        // an index without a query stands for a QueryId the engine does not know (stale query)
+        let qid = self.qids.get(q).copied().unwrap_or(QueryId(QID0 + q));
+        let kind = self.kinds.get(q).copied().unwrap_or(0);
         let a = match e {
             Event::Next(now) => {
                 if self.timed {
@@ -372,7 +433,7 @@ impl<'w> Sys<'w> {
             }
             Event::Resp { p, flag, id, peers, provs } if *p < n && peers.iter().all(|x| *x < n) && provs.iter().all(|(x, a)| *x < n && a.iter().all(|y| (*y as usize) < NADDR)) => {
                 let peers: Vec<KademliaPeer> = peers.iter().map(|x| self.kad(*x, &[])).collect();
-                let msg = match self.kind {
+                let msg = match kind {
                     0 => KademliaMessage::FindNode { target: vec![], peers },
                     1 => KademliaMessage::GetRecord {
                         key: None,
@@ -393,19 +454,19 @@ impl<'w> Sys<'w> {
                         providers: provs.iter().map(|(x, a)| self.kad(*x, a)).collect(),
                     },
                 };
-                self.engine.register_response(QID, self.peers[*p as usize], msg);
+                self.engine.register_response(qid, self.peers[*p as usize], msg);
                 vec![0]
             }
             Event::Fail(p) if *p < n => {
-                self.engine.register_response_failure(QID, self.peers[*p as usize]);
+                self.engine.register_response_failure(qid, self.peers[*p as usize]);
                 vec![0]
             }
             Event::SendOk(p) if *p < n => {
-                self.engine.register_send_success(QID, self.peers[*p as usize]);
+                self.engine.register_send_success(qid, self.peers[*p as usize]);
                 vec![0]
             }
             Event::SendFail(p) if *p < n => {
-                self.engine.register_send_failure(QID, self.peers[*p as usize]);
+                self.engine.register_send_failure(qid, self.peers[*p as usize]);
                 vec![0]
             }
             Event::BadResp(p) if *p < n => {
@@ -413,8 +474,16 @@ impl<'w> Sys<'w> {
                 let msg = KademliaMessage::PutValue {
                     record: Record { key: self.w.target_key.clone(), value: vec![], publisher: None, expires: None },
                 };
-                self.engine.register_response(QID, self.peers[*p as usize], msg);
+                self.engine.register_response(qid, self.peers[*p as usize], msg);
                 vec![0]
+            }
+            Event::PeerAct(p) if *p < n => {
+                let peer = self.peers[*p as usize];
+                match self.engine.next_peer_action(&qid, &peer) {
+                    None => vec![0],
+                    Some(QueryAction::SendMessage { peer, query, .. }) if query == qid => vec![7, self.idx(&peer)],
+                    Some(_) => vec![98],
+                }
             }
             _ => vec![97],
         };
@@ -438,6 +507,184 @@ fn run_stored(w: &World, c: &[u64]) -> Option<Vec<u64>> {
         }
     }
     None
+}
+
+// ---------------------------------------------------------------- several queries in one engine
+
+fn encode_multi(hs: &[Header], events: &[Vec<u64>]) -> Vec<u64> {
+    let h0 = &hs[0];
+    let mut c = vec![9, h0.k, h0.alpha, h0.timeout, h0.local, h0.dists.len() as u64];
+    c.extend(&h0.dists);
+    c.push(hs.len() as u64);
+    for h in hs {
+        c.extend([h.kind, h.flavour, h.qtag, h.qn, h.known, h.seeds.len() as u64]);
+        c.extend(&h.seeds);
+        push_entries(&mut c, &h.kprov);
+    }
+    c.push(events.len() as u64);
+    for e in events {
+        c.extend(e);
+    }
+    c
+}
+
+/// (query index, event, recorded choice of a `next_action` event)
+type MEvent = (usize, Event, u64);
+
+fn encode_mevent(q: usize, e: &Event, choice: u64) -> Vec<u64> {
+    let v = e.encode();
+    match e {
+        Event::Next(now) => vec![0, *now, choice],
+        _ => {
+            let mut r = vec![v[0], q as u64];
+            r.extend(&v[1..]);
+            r
+        }
+    }
+}
+
+fn decode_multi(c: &[u64]) -> Option<(Vec<Header>, Vec<MEvent>)> {
+    let mut r = Cursor(c, 0);
+    if r.n()? != 9 {
+        return None;
+    }
+    let (k, alpha, timeout, local) = (r.n()?, r.n()?, r.n()?, r.n()?);
+    let dists = r.list()?;
+    let nq = r.n()? as usize;
+    if nq == 0 || nq > 8 {
+        return None;
+    }
+    let mut hs = Vec::new();
+    for _ in 0..nq {
+        hs.push(Header {
+            kind: r.n()?,
+            flavour: r.n()?,
+            k,
+            alpha,
+            timeout,
+            local,
+            qtag: r.n()?,
+            qn: r.n()?,
+            known: r.n()?,
+            dists: dists.clone(),
+            seeds: r.list()?,
+            kprov: r.entries()?,
+        });
+    }
+    let n = r.n()? as usize;
+    let mut evs = Vec::new();
+    for _ in 0..n {
+        let tag = r.n()?;
+        let e = match tag {
+            0 => (0usize, Event::Next(r.n()?), r.n()?),
+            1 => {
+                let q = r.n()? as usize;
+                (q, Event::Resp { p: r.n()?, flag: r.n()?, id: r.n()?, peers: r.list()?, provs: r.entries()? }, 0)
+            }
+            2 => (r.n()? as usize, Event::Fail(r.n()?), 0),
+            3 => (r.n()? as usize, Event::SendOk(r.n()?), 0),
+            4 => (r.n()? as usize, Event::SendFail(r.n()?), 0),
+            5 => (r.n()? as usize, Event::BadResp(r.n()?), 0),
+            6 => (r.n()? as usize, Event::PeerAct(r.n()?), 0),
+            _ => return None,
+        };
+        evs.push(e);
+    }
+    if r.1 != c.len() {
+        return None;
+    }
+    Some((hs, evs))
+}
+
+/// Replays a stored multi-query case. HashMap iteration order differs from run to run, so the
+/// recorded choice of every `next_action` event is replaced by the choice made in THIS run;
+/// the patched case is what is handed to the model.
+fn run_stored_multi(w: &World, c: &[u64]) -> Option<(Vec<u64>, Vec<u64>)> {
+    let (hs, evs) = decode_multi(c)?;
+    let mut s = Sys::new_multi(w, &hs)?;
+    let mut trace = vec![1u64];
+    let mut events = Vec::new();
+    for (q, e, _) in &evs {
+        let a = s.apply_q(*q, e, &mut trace);
+        let choice = match e {
+            Event::Next(_) if a[0] != 0 => s.acted.map(|i| i as u64 + 1).unwrap_or(99),
+            _ => 0,
+        };
+        events.push(encode_mevent(*q, e, choice));
+    }
+    Some((encode_multi(&hs, &events), trace))
+}
+
+/// Several lookups in one engine, driven by one network.
+fn drive_multi(w: &World, hs: &[Header], net: &Net, choose: &mut dyn FnMut(u64) -> u64, max_steps: usize) -> Option<(Vec<u64>, Vec<u64>)> {
+    let mut s = Sys::new_multi(w, hs)?;
+    let n = hs[0].dists.len() as u64;
+    let nq = hs.len();
+    let mut events: Vec<Vec<u64>> = Vec::new();
+    let mut trace = vec![1u64];
+    let mut inflight: Vec<(usize, u64)> = Vec::new();
+    let mut live = vec![true; nq];
+    let resolve = |p: u64, choose: &mut dyn FnMut(u64) -> u64| -> Event {
+        match net.behaviour[p as usize] {
+            0 => Event::Resp {
+                p,
+                flag: net.rec[p as usize].0,
+                id: net.rec[p as usize].1,
+                peers: net.knows[p as usize].clone(),
+                provs: net.provs[p as usize].clone(),
+            },
+            1 => Event::Fail(p),
+            2 => Event::BadResp(p),
+            _ => if choose(2) == 0 { Event::Fail(p) } else { Event::BadResp(p) },
+        }
+    };
+    let mut tail = 0;
+    for _ in 0..max_steps {
+        let a = s.apply_q(0, &Event::Next(0), &mut trace);
+        let acted = s.acted;
+        let choice = if a[0] == 0 { 0 } else { acted.map(|i| i as u64 + 1).unwrap_or(99) };
+        events.push(vec![0, 0, choice]);
+        if !live.iter().any(|x| *x) {
+            tail += 1;
+            if tail >= 2 {
+                break;
+            }
+        }
+        match (a[0], acted) {
+            (1, Some(q)) => {
+                inflight.push((q, a[1]));
+                if choose(100) < 20 {
+                    let e = Event::PeerAct(a[1]);
+                    events.push(encode_mevent(q, &e, 0));
+                    s.apply_q(q, &e, &mut trace);
+                }
+            }
+            (4, _) => {}
+            (0, _) => {
+                if choose(100) < 15 {
+                    // something addressed to the wrong query or an unknown one
+                    let q = choose(nq as u64 + 1) as usize;
+                    let p = choose(n);
+                    if !inflight.contains(&(q, p)) {
+                        let e = if choose(2) == 0 { resolve(p, choose) } else { Event::PeerAct(p) };
+                        events.push(encode_mevent(q, &e, 0));
+                        s.apply_q(q, &e, &mut trace);
+                    }
+                }
+                if inflight.is_empty() {
+                    break;
+                }
+                let i = choose(inflight.len() as u64) as usize;
+                let (q, p) = inflight.remove(i);
+                let e = resolve(p, choose);
+                events.push(encode_mevent(q, &e, 0));
+                s.apply_q(q, &e, &mut trace);
+            }
+            (_, Some(q)) => live[q] = false,
+            _ => break,
+        }
+    }
+    Some((encode_multi(hs, &events), trace))
 }
 
 /// What the simulated network does: contacts, behaviour and data of every peer.
@@ -498,6 +745,9 @@ fn drive(w: &World, h: &Header, net: &Net, choose: &mut dyn FnMut(u64) -> u64, m
             }
             // late events for a query that is gone
             if let Some(p) = inflight.pop() {
+                if net.noise > 0 {
+                    do_event(&mut s, Event::PeerAct(p), &mut trace);
+                }
                 let e = resolve(p, choose);
                 do_event(&mut s, e, &mut trace);
             }
@@ -510,9 +760,17 @@ fn drive(w: &World, h: &Header, net: &Net, choose: &mut dyn FnMut(u64) -> u64, m
                     let e = if choose(2) == 0 { Event::SendOk(a[1]) } else { Event::SendFail(a[1]) };
                     do_event(&mut s, e, &mut trace);
                 }
+                if net.noise > 0 && choose(100) < 25 {
+                    // the connection is up: fetch the message for the scheduled peer
+                    do_event(&mut s, Event::PeerAct(a[1]), &mut trace);
+                }
             }
             4 => {}
             0 => {
+                if net.noise > 0 && choose(100) < 20 {
+                    let p = choose(n);
+                    do_event(&mut s, Event::PeerAct(p), &mut trace);
+                }
                 if net.noise > 0 && choose(100) < net.noise {
                     // a response or failure nobody asked for (or a duplicate)
                     let p = choose(n);
@@ -671,6 +929,14 @@ pub fn main(args: &Args) {
         stored = read_cases(Path::new(d));
     }
     for c in stored.iter() {
+        if c.first() == Some(&9) {
+            match catch_unwind(AssertUnwindSafe(|| run_stored_multi(&w, c))) {
+                Ok(Some((c2, t))) => out.emit(&c2, &t),
+                Ok(None) => out.emit(c, &[0]),
+                Err(_) => out.emit(c, &[PANIC_MARK]),
+            }
+            continue;
+        }
         let t = catch_unwind(AssertUnwindSafe(|| run_stored(&w, c))).unwrap_or(Some(vec![PANIC_MARK])).unwrap_or(vec![0]);
         out.emit(c, &t);
     }
@@ -687,6 +953,41 @@ pub fn main(args: &Args) {
         match catch_unwind(AssertUnwindSafe(|| drive(&w, &h, &net, &mut choose, 200))) {
             Ok(r) => emit_run(&mut out, r),
             Err(_) => out.emit(&h.encode(&[]), &[PANIC_MARK]),
+        }
+    }
+
+    // stream 1b: two to four concurrent lookups (same target key) in one engine
+    let nmulti = args.u64("multi", ncases / 3);
+    for _ in 0..nmulti {
+        let mut r = rng.fork();
+        let h0 = random_header(&mut r, false);
+        let nq = r.range(2, 4);
+        let hs: Vec<Header> = (0..nq)
+            .map(|_| {
+                let mut h = random_header(&mut r, false);
+                h.k = h0.k;
+                h.alpha = h0.alpha;
+                h.timeout = h0.timeout;
+                h.local = h0.local;
+                h.dists = h0.dists.clone();
+                let n = h.dists.len() as u64;
+                h.seeds = (0..n).filter(|p| *p != h.local && r.chance(50)).collect();
+                h.kprov = if h.kind == 2 { (0..r.below(3)).map(|_| (r.below(n), random_addrs(&mut r))).collect() } else { vec![] };
+                if h.kind == 0 {
+                    h.flavour = r.range(1, 2);
+                }
+                h
+            })
+            .collect();
+        let mut hk = h0.clone();
+        hk.kind = 2; // make the shared network carry provider entries
+        let mut net = random_net(&mut r, &hk, false);
+        net.noise = 0;
+        let mut choose = |a: u64| r.below(a.max(1));
+        match catch_unwind(AssertUnwindSafe(|| drive_multi(&w, &hs, &net, &mut choose, 300))) {
+            Ok(Some((c, t))) => out.emit(&c, &t),
+            Ok(None) => {}
+            Err(_) => out.emit(&encode_multi(&hs, &[]), &[PANIC_MARK]),
         }
     }
 
